@@ -307,6 +307,7 @@ const c24Watchdog = 20 * time.Second
 func (w *c24World) settle() string {
 	deadline := time.Now().Add(c24Watchdog)
 	for time.Now().Before(deadline) {
+		dispBefore := w.hk.dispatch.Load() // read BEFORE the first dump
 		d := c24TakeDump()
 		w.mu.Lock()
 		held := len(w.gates)
@@ -319,8 +320,12 @@ func (w *c24World) settle() string {
 		if d.loopParked {
 			return "parked"
 		}
-		// loop goroutine is busy: let it complete two more iterations and look again
-		d0, i0 := w.hk.dispatch.Load(), w.hk.iters.Load()
+		// The loop goroutine is busy. It is at a fixpoint iff a complete pass ran while every
+		// worker stayed idle/held and dispatched nothing: workers idle in two dumps with no
+		// dispatch from before the first to after the second were idle all the time in between
+		// (a worker leaves idle only through a dispatch), and two iteration starts after the
+		// first dump bracket one complete pass.
+		i0 := w.hk.iters.Load()
 		ok := false
 		for time.Now().Before(deadline) {
 			if w.hk.iters.Load() >= i0+2 {
@@ -333,10 +338,11 @@ func (w *c24World) settle() string {
 			runtime.Gosched()
 		}
 		d2 := c24TakeDump()
+		dispAfter := w.hk.dispatch.Load()
 		if d2.loopSeen && d2.loopParked && d2.transit == 0 && d2.idle+d2.held == w.workers && d2.held == held {
 			return "parked"
 		}
-		if ok && d2.transit == 0 && d2.idle == d.idle && d2.held == d.held && w.hk.dispatch.Load() == d0 {
+		if ok && d2.transit == 0 && d2.idle == d.idle && d2.held == d.held && d2.held == held && dispAfter == dispBefore {
 			w.r.Event("settled_while_loop_retries_busy_worker", 1)
 			return "spin"
 		}
@@ -560,6 +566,15 @@ func (w *c24World) advance(target time.Time) {
 			return false
 		}
 		w.process(st == "parked" && held == 0 && w.heldNow() == 0)
+		// The clock was just poked and the loop goroutine is parked again: whatever it armed its
+		// timer for must lie in the future (also while executors are held: a due item for a busy
+		// worker keeps the loop retrying, it does not park).
+		if st == "parked" && !w.aborted && !w.violated {
+			if wh, now := w.s.When(), w.mock.Now(); !wh.IsZero() && !wh.After(now) {
+				w.r.Event("when_checks", 1)
+				w.fail("when_in_past", "when", fmt.Sprintf("When()=%s is not after the clock %s although the loop goroutine went back to sleep (executors held: %d)", c24T(wh), c24T(now), w.heldNow()))
+			}
+		}
 		return !w.aborted && !w.violated
 	}
 	if !step(w.mock.Now()) { // poke: fires a timer armed with Reset(0)
